@@ -3,6 +3,11 @@
 // `is_mutex_poisoned()` reports the ghost flag, an interaction either does not start (error / cancelled) or
 // hands the wrapped value to the closure, which the extractor runs inline (`inlinecall interact`).
 pub enum InteractError { Panic(PanicPayload), Aborted }
+impl InteractError {
+    // `e.to_string()` (Display): an opaque text, like `format!("{}", e)`
+    #[verifier::external_body]
+    pub fn to_string(&self) -> (r: Str) { unimplemented!() }
+}
 #[verifier::external_body]
 pub struct PanicPayload { _p: () }
 
